@@ -79,11 +79,22 @@ def tlc(specdir, module, cfg_text, extra=(), timeout=1200, workers=None, files=(
         f.write(cfg_text)
     env = dict(os.environ)
     env['JAVA_TOOL_OPTIONS'] = ('-Djava.io.tmpdir=%s %s' % (d, java_opts)).strip()
+    cov = os.environ.get('VERIF_TLC_COVERAGE') and '-simulate' not in extra
+    if cov:     # audit mode (tools/coverage_audit.sh): per-action and per-subexpression counts, collected in one report
+        extra = list(extra) + ['-coverage', '1']
     cmd = ['timeout', str(timeout), 'tlc', '-workers', str(workers or NCPU), '-metadir', os.path.join(d, 'meta'),
            '-config', 'MC.cfg'] + list(extra) + [module + '.tla']
     t0 = time.time()
     p = subprocess.run(cmd, cwd=d, env=env, stdout=subprocess.PIPE, stderr=subprocess.STDOUT, text=True)
     res = TLCResult(p.stdout, p.returncode, time.time() - t0)
+    if cov:
+        import re
+        last = p.stdout.rfind('The coverage statistics at')
+        zero = [l for l in p.stdout[last:].splitlines() if re.search(r': 0(:0)?$', l)] if last >= 0 else ['(no coverage section)']
+        with open(os.environ['VERIF_TLC_COVERAGE'], 'a') as f:
+            f.write('## %s (%s) %s\n' % (module, name or '', cfg_text.replace('\n', ' ')[:300]))
+            for l in zero:
+                f.write('   ' + l + '\n')
     res.dir = d
     shutil.rmtree(os.path.join(d, 'meta'), ignore_errors=True)
     if p.returncode == 124:
